@@ -24,7 +24,7 @@ func init() {
 			"Added after blind round 5: no encoder field value is narrowed below its field width; the decoder's minimum length is not above the encoder's smallest payload; every non-failing exit of EngineApplier.Apply returns the result of the mode-specific apply (no 'seen already' shortcut). " +
 			"Added after blind round 7: applied-prefix-is-recorded: on every path from a successful apply callback to a failing exit of ApplyEntries the applier's position has been advanced — violated on this tree (open finding with demo: the prefix of a failed batch is applied again by the retry).",
 		NotDecided: "all delivery schedules (reordering, duplication, overlap of push and poll, reconnects); equality of replica state with a primary prefix; the primary's choice of what to send.",
-		Rules:      []func(*Ctx, *Reporter){ruleReplCursor, ruleReplCursorWriters, ruleReplReported, ruleReplEntryCodec, ruleReplCompressionFlag, ruleReplApplyBypass, ruleReplCompressionSiblings, ruleReplApplierWiring, ruleApplierAlwaysApplies, ruleAppliedPrefixRecorded},
+		Rules:      []func(*Ctx, *Reporter){ruleReplCursor, ruleReplCursorWriters, ruleReplReported, ruleReplEntryCodec, ruleReplCompressionFlag, ruleReplApplyBypass, ruleReplCompressionSiblings, ruleReplApplierWiring, ruleApplierAlwaysApplies, ruleAppliedPrefixRecorded, ruleApplierPropagatesErrors},
 	})
 }
 
